@@ -210,6 +210,20 @@ pub fn relational_cfgs() -> Vec<Cfg> {
         });
     }
     v.push(Cfg::Sdes { chunks: vec![Chunk { ssrc: 7, items: vec![it(8, b"ex", "a"), it(2, &[], "name"), it(8, b"ex", "b")] }], padding: 0 });
+    // ---- SDES items of type 0: `SdesItem::builder` takes any `u8` and the builders accept it (C16's list has no rule
+    // for it), so these are builder configurations like any other for the properties that speak about sizes, buffers
+    // and histories (C06, C14, C16, C17, C20). What their RFC image or their parse would be nobody says (type 0 ends an
+    // item list on the wire): C07 and the round trips leave them out.
+    for val in ["", "x", "end", "four", "0123456789"] {
+        for pad in [0u8, 4] {
+            v.push(Cfg::Sdes { chunks: vec![Chunk { ssrc: 7, items: vec![it(0, &[], val)] }], padding: pad });
+            v.push(Cfg::Sdes { chunks: vec![Chunk { ssrc: 7, items: vec![it(1, &[], "cname"), it(0, &[], val), it(2, &[], "name")] }], padding: pad });
+            v.push(Cfg::Sdes { chunks: vec![Chunk { ssrc: 7, items: vec![it(0, &[], val), it(1, &[], "cname")] }, Chunk { ssrc: 8, items: vec![it(2, &[], "n")] }], padding: pad });
+            v.push(Cfg::Sdes { chunks: vec![Chunk { ssrc: 7, items: vec![it(8, b"p", "v"), it(1, &[], "c"), it(0, &[], val)] }], padding: pad });
+        }
+    }
+    v.push(Cfg::Sdes { chunks: vec![Chunk { ssrc: 7, items: vec![it(0, &[], &"z".repeat(255)), it(1, &[], "after")] }], padding: 0 });
+    v.push(Cfg::Sdes { chunks: vec![Chunk { ssrc: 7, items: vec![it(0, b"pfx", "with-prefix"), it(0, &[], "")] }], padding: 0 });
     v.push(Cfg::Sdes { chunks: vec![Chunk { ssrc: 7, items: vec![it(1, &[], "one"), it(1, &[], "two"), it(1, &[], "one")] }], padding: 4 });
     // a non-PRIV item that carries a (documented to be ignored) prefix
     v.push(Cfg::Sdes { chunks: vec![Chunk { ssrc: 1, items: vec![it(1, b"pfx", "cname"), it(2, b"\0", "")] }], padding: 4 });
@@ -795,6 +809,11 @@ pub fn check_c07(ctx: &mut Ctx, cfg: &Cfg, how: How) {
     if enc::size_of(cfg) > (1 << 20) {
         return;
     }
+    if cfg_has_item_type0(cfg) {
+        // no RFC image: on the wire type 0 ends the item list
+        ctx.class("c07:skipped:sdes-item-type-0");
+        return;
+    }
     ctx.eval();
     let kind = cfg.kind_name();
     let bytes = match crate::drive::build_bytes(cfg, how) {
@@ -1245,6 +1264,13 @@ pub fn floor_c16(ctx: &Ctx) -> Vec<(String, bool)> {
 // ================================================================== C17
 
 static UNINIT: AtomicBool = AtomicBool::new(false);
+pub fn cfg_has_item_type0(c: &Cfg) -> bool {
+    match c {
+        Cfg::Sdes { chunks, .. } => chunks.iter().any(|c| c.items.iter().any(|i| i.type_ == 0)),
+        Cfg::Compound(m) => m.iter().any(cfg_has_item_type0),
+        _ => false,
+    }
+}
 fn cfg_has_fir(c: &Cfg) -> bool {
     match c {
         Cfg::Fb { fci: Fci::Fir(l), .. } => l.len() > 1,
